@@ -410,6 +410,43 @@ for g in GROUPS:
     mk()
 
 
+@obligation('C04.jacrev.arguments', functions=['pypose.func.jac:jacrev'], max_paths=4, first_path_only=True, no_validate=True,
+            note='torch.func.jacrev by contract (a recorder): pp.func.jacrev documents "the exact same functionality"')
+def jacrev_arguments(env):
+    """pp.func.jacrev(func, argnums, has_aux=, chunk_size=) hands every one of its arguments to torch.func.jacrev - in particular argnums,
+    keyword or positional, so that "every input gets its Jacobian".  Concrete twin: the Jacobians w.r.t. argument 1 and w.r.t. (0, 1) of
+    an SE3 action against autograd of the plain function."""
+    T = env.T
+    if env.sym:
+        from pvc import storch as st
+        import inspect
+        jac = env.load('pypose.func.jac')
+        seen = []
+        def torch_jacrev(func, argnums=0, *, has_aux=False, chunk_size=None, _preallocate_and_copy=False):
+            seen.append(dict(func=func, argnums=argnums, has_aux=has_aux, chunk_size=chunk_size)); return lambda *a, **k: ('jacobian', argnums)
+        st.set_external('func.jacrev', torch_jacrev)
+        env.stub(jac, 'retain_ltype', lambda *a, **k: (lambda fn: fn))       # the ltype-retaining context is C06's contract (C06.retain_ltype_faults)
+        f = lambda x, y: x
+        out1 = jac.jacrev(f, argnums=1)(1, 2); out2 = jac.jacrev(f, (0, 1), has_aux=True, chunk_size=5)(1, 2); out3 = jac.jacrev(f)(1, 2)
+        env.holds('argnums given by keyword reaches torch.func.jacrev', len(seen) >= 1 and seen[0]['argnums'] == 1 and seen[0]['func'] is f)
+        env.holds('argnums given positionally (a tuple), has_aux and chunk_size reach torch.func.jacrev',
+                  len(seen) >= 2 and seen[1]['argnums'] == (0, 1) and seen[1]['has_aux'] is True and seen[1]['chunk_size'] == 5)
+        env.holds('the default is argument 0', len(seen) >= 3 and seen[2]['argnums'] == 0 and seen[2]['has_aux'] is False)
+        env.holds('the wrapper returns what the torch function returns', out1 == ('jacobian', 1) and out2 == ('jacobian', (0, 1)) and out3 == ('jacobian', 0))
+        return
+    import pypose as pp
+    X = pp.randn_SE3(dtype=T.float64); p = T.randn(3, dtype=T.float64)
+    f = lambda x, y: x.Act(y)
+    Rm = X.matrix()[:3, :3]
+    J1 = pp.func.jacrev(f, argnums=1)(X, p)
+    env.eq('argnums given by keyword reaches torch.func.jacrev', J1, Rm)
+    J01 = pp.func.jacrev(f, (0, 1))(X, p)
+    env.holds('argnums given positionally (a tuple), has_aux and chunk_size reach torch.func.jacrev',
+              isinstance(J01, tuple) and len(J01) == 2 and tuple(J01[1].shape) == (3, 3) and bool(T.allclose(J01[1], Rm)) and tuple(J01[0].shape) == (3, 7))
+    J0 = pp.func.jacrev(f)(X, p)
+    env.holds('the default is argument 0', tuple(J0.shape) == (3, 7))
+
+
 @obligation('C04.canary.right_perturbation', functions=[f'{OPS}:SE3_Act.backward'], canary=True)
 def canary(env):
     """a right-perturbation Jacobian must be refuted"""
